@@ -183,7 +183,7 @@ func smallSeenBit(c *core.Ctx, b *ob) {
 	fn := c.Lookup("thrift.(*structDecoder).decode$1")
 	key := "required-tracking:seen-bit"
 	if fn == nil {
-		b.addP([]string{"C04", "C08"}, core.Undecided, key, "-", "field callback of structDecoder.decode not found")
+		b.addP([]string{"C04", "C08", "C13"}, core.Undecided, key, "-", "field callback of structDecoder.decode not found")
 		return
 	}
 	var seenStore *ssa.Store
@@ -203,7 +203,7 @@ func smallSeenBit(c *core.Ctx, b *ob) {
 		}
 	}
 	if seenStore == nil {
-		b.addP([]string{"C04", "C08"}, core.Undecided, key, c.FuncPos(fn), "no store into the seen bitset found")
+		b.addP([]string{"C04", "C08", "C13"}, core.Undecided, key, c.FuncPos(fn), "no store into the seen bitset found")
 		return
 	}
 	bad := ""
@@ -223,9 +223,9 @@ func smallSeenBit(c *core.Ctx, b *ob) {
 		}
 	}
 	if bad != "" {
-		b.addP([]string{"C04", "C08"}, core.Violation, key, bad, "a declared field is accepted (a return other than the unknown-field skip) on a path that does not set its bit in the seen set: a required field decoded on that path is reported as missing")
+		b.addP([]string{"C04", "C08", "C13"}, core.Violation, key, bad, "a declared field is accepted (a return other than the unknown-field skip) on a path that does not set its bit in the seen set: a required field decoded on that path is reported as missing")
 	} else {
-		b.addP([]string{"C04", "C08"}, core.Discharged, key, c.InstrPos(seenStore), "the seen bit is set before every return except the unknown-field skip")
+		b.addP([]string{"C04", "C08", "C13"}, core.Discharged, key, c.InstrPos(seenStore), "the seen bit is set before every return except the unknown-field skip")
 	}
 }
 
@@ -8648,6 +8648,398 @@ func smallWave30(c *core.Ctx, b *ob) {
 			} else {
 				b.addP(props, core.Discharged, key, c.FuncPos(fn), "the Values encoded come from the map itself (MapKeys, MapIndex)")
 			}
+		}
+	}
+	// (k) the map header carries the key and value types whatever the count: an empty map in the
+	// binary protocol is ktype vtype 00 00 00 00, not six zero bytes. Every WriteMap of the map
+	// encoder is given a Map whose Key and Value come from TypeOf.
+	{
+		props := []string{"C13"}
+		key := "encode-map-header:types-always-announced"
+		var fn *ssa.Function
+		for _, f := range c.RepoFunctions() {
+			if f.Parent() != nil && f.Parent().Name() == "encodeFuncMapOf" && f.Blocks != nil && strings.HasPrefix(shortName(f), "thrift.") {
+				fn = f
+			}
+		}
+		if fn == nil {
+			b.addP(props, core.Undecided, key, "-", "the closure of thrift.encodeFuncMapOf not found")
+		} else {
+			n, bad := 0, ""
+			for _, ci := range callsIn(fn) {
+				cc := ci.Common()
+				if !cc.IsInvoke() || cc.Method.Name() != "WriteMap" || len(cc.Args) != 1 {
+					continue
+				}
+				n++
+				// the argument is a load of a local Map literal: its Key and Value fields are stored
+				okK, okV := false, false
+				if ld, isLd := cc.Args[0].(*ssa.UnOp); isLd && ld.Op == token.MUL {
+					if cell, isA := ld.X.(*ssa.Alloc); isA {
+						for _, blk := range fn.Blocks {
+							for _, in := range blk.Instrs {
+								st, isSt := in.(*ssa.Store)
+								if !isSt {
+									continue
+								}
+								fa, isFA := st.Addr.(*ssa.FieldAddr)
+								if !isFA || fa.X != ssa.Value(cell) {
+									continue
+								}
+								if _, isK := st.Val.(*ssa.Const); isK {
+									continue
+								}
+								switch fieldNameOf(fa) {
+								case "Key":
+									okK = true
+								case "Value":
+									okV = true
+								}
+							}
+						}
+					}
+				}
+				if !okK || !okV {
+					bad = c.InstrPos(ci)
+				}
+			}
+			switch {
+			case n == 0:
+				b.addP(props, core.Undecided, key, c.FuncPos(fn), "the map encoder does not call WriteMap")
+			case bad != "":
+				b.addP(props, core.Violation, key, bad, "the map encoder calls WriteMap with a Map whose Key or Value type is not set: in the binary protocol the header of an empty map is written as 00 00 followed by the count, where the specification has the key and value type codes — the bytes are not the specification's encoding of the (empty) map")
+			default:
+				b.addP(props, core.Discharged, key, c.FuncPos(fn), fmt.Sprintf("%d WriteMap call(s), each with Key and Value set", n))
+			}
+		}
+	}
+	// (l) what a repeated field takes on the wire is never computed from what its elements take in
+	// memory: alignedSize is for pointer arithmetic over the slice, the size function adds up what the
+	// element codec reports (a *float32 element is 8 bytes in memory and 4 on the wire)
+	{
+		props := []string{"C03", "C16"}
+		key := "repeated-size:not-from-memory-size"
+		fn := c.Lookup("proto.sliceSizeFuncOf")
+		if fn == nil {
+			b.addP(props, core.Undecided, key, "-", "proto.sliceSizeFuncOf not found")
+		} else {
+			isMem := func(x ssa.Value) bool {
+				if call, ok := x.(*ssa.Call); ok {
+					if g := staticCallee(call.Common()); g != nil && g.Name() == "alignedSize" {
+						return true
+					}
+				}
+				return false
+			}
+			bad := ""
+			for _, f := range append([]*ssa.Function{fn}, fn.AnonFuncs...) {
+				// captured values derived from alignedSize in the constructor
+				memFree := map[ssa.Value]bool{}
+				if f != fn {
+					for _, blk := range fn.Blocks {
+						for _, in := range blk.Instrs {
+							mc, ok := in.(*ssa.MakeClosure)
+							if !ok || mc.Fn != ssa.Value(f) {
+								continue
+							}
+							for i, bnd := range mc.Bindings {
+								src := bnd
+								tainted := dependsOn(src, isMem)
+								if al, isA := bnd.(*ssa.Alloc); isA {
+									for _, sv := range cellStores(al) {
+										if dependsOn(sv, isMem) {
+											tainted = true
+										}
+									}
+								}
+								if tainted && i < len(f.FreeVars) {
+									memFree[f.FreeVars[i]] = true
+								}
+							}
+						}
+					}
+				}
+				// arithmetic flow only (sums, products, conversions, φ): what a codec call returns
+				// for an element located with alignedSize does not count
+				seenV := map[ssa.Value]bool{}
+				var arith func(x ssa.Value, depth int) bool
+				arith = func(x ssa.Value, depth int) bool {
+					if depth > 12 || seenV[x] {
+						return false
+					}
+					seenV[x] = true
+					defer delete(seenV, x)
+					if isMem(x) || memFree[x] {
+						return true
+					}
+					switch y := x.(type) {
+					case *ssa.BinOp:
+						return arith(y.X, depth+1) || arith(y.Y, depth+1)
+					case *ssa.Convert:
+						return arith(y.X, depth+1)
+					case *ssa.ChangeType:
+						return arith(y.X, depth+1)
+					case *ssa.Phi:
+						for _, e := range y.Edges {
+							if arith(e, depth+1) {
+								return true
+							}
+						}
+					case *ssa.UnOp:
+						if y.Op == token.MUL {
+							if memFree[y.X] {
+								return true
+							}
+							if cell := cellOf(y.X); cell != nil {
+								for _, sv := range cellStores(cell) {
+									if arith(sv, depth+1) {
+										return true
+									}
+								}
+							}
+						}
+					}
+					return false
+				}
+				for _, r := range returnsOf(f) {
+					for _, res := range r.Results {
+						if arith(res, 0) {
+							bad = c.InstrPos(r)
+						}
+					}
+				}
+			}
+			if bad != "" {
+				b.addP(props, core.Violation, key, bad, "the size of a repeated field is computed from alignedSize — the element's size in memory — at "+bad+": for a repeated field of pointers to fixed-width values ([]*float32: 8 bytes in memory, 4 on the wire) the size is too large, the enclosing message's length prefix swallows the fields that follow, and Size no longer equals len(Marshal)")
+			} else {
+				b.addP(props, core.Discharged, key, c.FuncPos(fn), "no result of the slice size function derives from alignedSize")
+			}
+		}
+	}
+	// (m) whether a Message field is written does not depend on its size: an empty message is
+	// written as a tag and a zero length (repeated elements and non-nil pointers must stay present),
+	// so neither the size nor the encode function compares m.Size() with zero
+	{
+		props := []string{"C03", "C12"}
+		key := "message-codec:empty-message-still-written"
+		n, bad := 0, ""
+		for _, f := range c.RepoFunctions() {
+			if f.Parent() == nil || f.Blocks == nil || !(f.Parent().Name() == "messageSizeFuncOf" || f.Parent().Name() == "messageEncodeFuncOf") {
+				continue
+			}
+			n++
+			for _, blk := range f.Blocks {
+				for _, in := range blk.Instrs {
+					bo, ok := in.(*ssa.BinOp)
+					if !ok || (bo.Op != token.EQL && bo.Op != token.NEQ) {
+						continue
+					}
+					if k, isK := constInt(bo.Y); !isK || k != 0 {
+						continue
+					}
+					if call, isC := bo.X.(*ssa.Call); isC && call.Common().IsInvoke() && call.Common().Method.Name() == "Size" {
+						bad = c.InstrPos(bo) + " (" + shortName(f) + ")"
+					}
+				}
+			}
+		}
+		switch {
+		case n == 0:
+			b.addP(props, core.Undecided, key, "-", "the closures of proto.messageSizeFuncOf / messageEncodeFuncOf not found")
+		case bad != "":
+			b.addP(props, core.Violation, key, bad, "the Message codec tests m.Size() against zero at "+bad+" and leaves an empty message out: an empty element of a repeated Message field becomes a tag without a length (Unmarshal fails or merges elements), and a non-nil pointer to an empty message comes back nil")
+		default:
+			b.addP(props, core.Discharged, key, "-", fmt.Sprintf("%d Message codec closures, none compares m.Size() with zero", n))
+		}
+	}
+	// (n) a Go string is a sequence of bytes, and what Marshal writes Unmarshal reads back: the proto
+	// and thrift codecs never validate UTF-8 (a check on one side only makes the library reject its
+	// own output)
+	{
+		props := []string{"C03", "C04"}
+		key := "string-codecs:no-utf8-validation"
+		n, bad := 0, ""
+		for _, fn := range c.RepoFunctions() {
+			name := shortName(fn)
+			if fn.Blocks == nil || !(strings.HasPrefix(name, "proto.") || strings.HasPrefix(name, "thrift.")) {
+				continue
+			}
+			n++
+			for _, ci := range callsIn(fn) {
+				if cn := calleeName(ci.Common()); strings.HasPrefix(cn, "unicode/utf8.Valid") {
+					bad = c.InstrPos(ci) + " (" + name + ")"
+				}
+			}
+		}
+		switch {
+		case n == 0:
+			b.addP(props, core.Undecided, key, "-", "no function of proto or thrift found")
+		case bad != "":
+			b.addP(props, core.Violation, key, bad, "a proto or thrift function validates UTF-8 at "+bad+": the encoders write any Go string, so a string holding a Latin-1 byte or binary data marshals and then fails to unmarshal — Unmarshal(Marshal(v)) is an error")
+		default:
+			b.addP(props, core.Discharged, key, "-", fmt.Sprintf("%d functions of proto and thrift, none calls utf8.Valid*", n))
+		}
+	}
+	// (o) the struct decoder looks a field up at id-minID: its table is made for that purpose, one
+	// slot per id between the smallest and the largest. The list of fields in declaration order is
+	// not that table even when it has the same length (ids 2,1,3).
+	{
+		props := []string{"C04"}
+		key := "struct-decoder:table-indexed-by-id"
+		fn := c.Lookup("thrift.decodeFuncStructOf")
+		if fn == nil {
+			b.addP(props, core.Undecided, key, "-", "thrift.decodeFuncStructOf not found")
+		} else {
+			n, bad := 0, ""
+			for _, f := range append([]*ssa.Function{fn}, fn.AnonFuncs...) {
+				for _, blk := range f.Blocks {
+					for _, in := range blk.Instrs {
+						st, ok := in.(*ssa.Store)
+						if !ok {
+							continue
+						}
+						fa, ok := st.Addr.(*ssa.FieldAddr)
+						if !ok || !strings.HasSuffix(fieldAddrID(fa), "structDecoder.fields") {
+							continue
+						}
+						n++
+						for _, o := range origins(st.Val) {
+							if _, isMk := o.(*ssa.MakeSlice); !isMk {
+								bad = c.InstrPos(st)
+							}
+						}
+					}
+				}
+			}
+			switch {
+			case n == 0:
+				b.addP(props, core.Undecided, key, c.FuncPos(fn), "no store to structDecoder.fields found")
+			case bad != "":
+				b.addP(props, core.Violation, key, bad, "structDecoder.fields is assigned something other than a table made for it: the decoder indexes it with id-minID, so a list in declaration order makes fields with contiguous ids declared out of order (2, 1, 3) swap their values")
+			default:
+				b.addP(props, core.Discharged, key, c.FuncPos(fn), "the lookup table is a slice made by the constructor")
+			}
+		}
+	}
+	// (p) a thrift container encoder announces its container on every path: a nil set, list or map
+	// is an empty one on the wire (header with count 0), never nothing at all — a required field, a
+	// list element or a map value that writes no bytes shifts everything after it
+	{
+		props := []string{"C04", "C13"}
+		n, bad := 0, ""
+		for _, f := range c.RepoFunctions() {
+			if f.Parent() == nil || f.Blocks == nil || !strings.HasPrefix(shortName(f), "thrift.") {
+				continue
+			}
+			pn := f.Parent().Name()
+			if !(pn == "encodeFuncSliceOf" || pn == "encodeFuncMapOf" || pn == "encodeFuncMapAsSetOf") {
+				continue
+			}
+			writes := map[*ssa.BasicBlock]bool{}
+			for _, ci := range callsIn(f) {
+				cc := ci.Common()
+				if cc.IsInvoke() && (cc.Method.Name() == "WriteList" || cc.Method.Name() == "WriteSet" || cc.Method.Name() == "WriteMap") {
+					writes[ci.Block()] = true
+				}
+			}
+			must := map[*ssa.BasicBlock]bool{}
+			for _, blk := range f.Blocks {
+				must[blk] = true
+			}
+			must[f.Blocks[0]] = false
+			for changed := true; changed; {
+				changed = false
+				for _, blk := range f.Blocks {
+					if blk == f.Blocks[0] {
+						continue
+					}
+					v := true
+					for _, pr := range blk.Preds {
+						if !(must[pr] || writes[pr]) {
+							v = false
+						}
+					}
+					if v != must[blk] {
+						must[blk] = v
+						changed = true
+					}
+				}
+			}
+			for _, r := range returnsOf(f) {
+				if len(r.Results) != 1 || !isNilConst(r.Results[0]) {
+					continue
+				}
+				n++
+				if !(must[r.Block()] || writes[r.Block()]) {
+					bad = c.InstrPos(r) + " (" + shortName(f) + ")"
+				}
+			}
+		}
+		key := "container-encoder:header-on-every-path"
+		switch {
+		case n == 0:
+			b.addP(props, core.Undecided, key, "-", "no successful return found in thrift's container encoders")
+		case bad != "":
+			b.addP(props, core.Violation, key, bad, "a container encoder returns success at "+bad+" on a path that wrote no list, set or map header: a nil collection where a value must be emitted (a required field, a list element, a map value) produces no bytes at all, and the reader takes what follows for the container")
+		default:
+			b.addP(props, core.Discharged, key, "-", fmt.Sprintf("%d successful returns of container encoders, each after the header was written", n))
+		}
+	}
+	// (q) dontExpectEOF compares its argument with io.EOF by identity: what it is given is the error
+	// of the read itself, not a wrapper built around it (fmt.Errorf with %w) — a wrapped io.EOF goes
+	// through unchanged, and truncated input is reported as a clean end of stream
+	{
+		props := []string{"C08"}
+		key := "dont-expect-eof:given-the-raw-error"
+		n, bad := 0, ""
+		for _, fn := range c.RepoFunctions() {
+			if fn.Blocks == nil || !strings.HasPrefix(shortName(fn), "thrift.") {
+				continue
+			}
+			for _, ci := range callsIn(fn) {
+				g := staticCallee(ci.Common())
+				if g == nil || g.Name() != "dontExpectEOF" || len(ci.Common().Args) != 1 {
+					continue
+				}
+				n++
+				for _, o := range origins(ci.Common().Args[0]) {
+					if call, isC := o.(*ssa.Call); isC {
+						if cn := calleeName(call.Common()); strings.HasPrefix(cn, "fmt.Errorf") || strings.HasPrefix(cn, "errors.Join") {
+							bad = c.InstrPos(ci) + " (" + shortName(fn) + ")"
+						}
+					}
+				}
+			}
+		}
+		switch {
+		case n == 0:
+			b.addP(props, core.Undecided, key, "-", "no call of dontExpectEOF found")
+		case bad != "":
+			b.addP(props, core.Violation, key, bad, "dontExpectEOF is handed an error built by fmt.Errorf at "+bad+": it recognises io.EOF by identity, so the wrapped end-of-file passes through and input cut between a length prefix and its payload yields io.EOF instead of io.ErrUnexpectedEOF")
+		default:
+			b.addP(props, core.Discharged, key, "-", fmt.Sprintf("%d calls of dontExpectEOF, none on a wrapped error", n))
+		}
+	}
+	// (r) io.ReadAll treats the end of the stream as success: a thrift reader that collects a
+	// length-prefixed value with it returns a shorter value and no error when the input is cut
+	{
+		props := []string{"C08"}
+		key := "thrift-readers:no-read-all"
+		bad := ""
+		for _, fn := range c.RepoFunctions() {
+			if fn.Blocks == nil || !strings.HasPrefix(shortName(fn), "thrift.") {
+				continue
+			}
+			for _, ci := range callsIn(fn) {
+				if cn := calleeName(ci.Common()); cn == "io.ReadAll" || cn == "io/ioutil.ReadAll" {
+					bad = c.InstrPos(ci) + " (" + shortName(fn) + ")"
+				}
+			}
+		}
+		if bad != "" {
+			b.addP(props, core.Violation, key, bad, "a thrift function reads a value with io.ReadAll at "+bad+": the end of the input is not an error for ReadAll, so a string cut short is returned as a shorter string with a nil error where truncated input must be reported as unexpected EOF")
+		} else {
+			b.addP(props, core.Discharged, key, "-", "no function of package thrift calls io.ReadAll")
 		}
 	}
 	// (a) zig-zag decoding shifts the unsigned word: (v >> 1) ^ -(v & 1) with a logical shift. On a
